@@ -16,8 +16,6 @@ import (
 	"strconv"
 	"strings"
 	"sync"
-	"testing"
-	"testing/synctest"
 	"time"
 
 	"github.com/pascaldekloe/mqtt"
@@ -52,6 +50,78 @@ func (r *syncRec) hook(site string, args ...int) {
 	r.mu.Lock()
 	r.events = append(r.events, syncEvent{g, site, append([]int(nil), args...)})
 	r.mu.Unlock()
+	spinBreak(site, g)
+}
+
+// A request in lockWrite polls without blocking while the write semaphore says "connect
+// pending" and Online is still released, that is from a failed write of another goroutine
+// until the read routine goes offline. Inside a synctest bubble such a poll loop freezes the
+// virtual clock, and with it everything that would end the phase (timers of the harness, a
+// slow Close). The hook at the poll's wake-up lets a millisecond of virtual time pass after
+// every twenty polls at the same instant: the goroutine then counts as blocked, like the model's
+// parked request, and the run goes on.
+var spin struct {
+	mu   sync.Mutex
+	last map[int]time.Time
+	n    map[int]int
+}
+
+func spinBreak(site string, g int) {
+	if site != "wake" {
+		return
+	}
+	if g == 0 {
+		g = gid()
+	}
+	now := time.Now()
+	spin.mu.Lock()
+	if spin.last == nil {
+		spin.last, spin.n = map[int]time.Time{}, map[int]int{}
+	}
+	if spin.last[g].Equal(now) {
+		spin.n[g]++
+	} else {
+		spin.last[g], spin.n[g] = now, 0
+	}
+	pause := spin.n[g] >= 20
+	if pause {
+		spin.n[g] = 0
+	}
+	if len(spin.last) > 4096 {
+		spin.last, spin.n = map[int]time.Time{}, map[int]int{}
+	}
+	spin.mu.Unlock()
+	if pause {
+		time.Sleep(time.Millisecond)
+	}
+}
+
+func defaultHook(site string, args ...int) { spinBreak(site, 0) }
+
+func init() { mqtt.VerifEvent = defaultHook }
+
+// The hooks before the two context checks (connect, submitPersisted) read the context once
+// more than the code does: "ctx false" may be recorded although the check itself, a moment
+// later, saw the cancellation and took the early return. The early return is recognisable by
+// the goroutine's next event (the semaphore is handed back without any I/O): the recorded
+// reading is then corrected to the one the code acted on.
+func normalizeCtx(evs []syncEvent) []syncEvent {
+	out := append([]syncEvent(nil), evs...)
+	for i, e := range out {
+		if e.site != "ctx" || len(e.args) == 0 || e.args[0] != 0 {
+			continue
+		}
+		for j := i + 1; j < len(out); j++ {
+			if out[j].g != e.g {
+				continue
+			}
+			if out[j].site == "seqSend" || out[j].site == "csSend" {
+				out[i].args = []int{1}
+			}
+			break
+		}
+	}
+	return out
 }
 
 func wvName(k int) string { return [...]string{"WvPend", "WvDown", "WvConn"}[k] }
@@ -155,12 +225,13 @@ func runSyncCase(r *rng, stats map[string]int) (string, map[string]any, bool) {
 	defer restore()
 	rec := &syncRec{}
 	mqtt.VerifEvent = rec.hook
-	defer func() { mqtt.VerifEvent = nil }()
+	defer func() { mqtt.VerifEvent = defaultHook }()
 
 	o := seqOpts{bufSize: 256, pause: r.chance(2, 3), max1: 4, max2: 4, faultRate: pick(r, 0, 40, 120), lossRate: pick(r, 0, 200), steps: 40}
 	log := &evlog{}
 	sc := &scenario{r: r, opts: o, awaitRel: map[uint16]bool{}, conns: map[*simConn]*brokerConn{}, budgetIn: 6}
 	var scMu sync.Mutex
+	slowClose := r.chance(1, 2)
 	store := newSimStore(log)
 	dialer := &simDialer{log: log}
 	dialer.onDial = func(id int) (*simConn, bool) {
@@ -174,6 +245,14 @@ func runSyncCase(r *rng, stats map[string]int) (string, map[string]any, bool) {
 			return nil, false
 		}
 		c := &simConn{closedCh: make(chan struct{})}
+		if slowClose {
+			// a Close that takes a moment (linger): writes of other goroutines still succeed meanwhile
+			c.closeDelay = func() time.Duration {
+				scMu.Lock()
+				defer scMu.Unlock()
+				return time.Duration(r.intn(12)) * time.Millisecond
+			}
+		}
 		c.onRead = func(c *simConn, armed bool, want int) readAns {
 			// the connection mutex is held by simConn.Read: let other goroutines run
 			for i := 0; ; i++ {
@@ -233,6 +312,7 @@ func runSyncCase(r *rng, stats map[string]int) (string, map[string]any, bool) {
 		nPublishers = 1 + r.intn(3)
 		nPersist    = 1 + r.intn(2)
 		nClosers    = 1 + r.intn(2)
+		nRequesters = r.intn(3)
 	)
 	note := func(kind int, err error, started bool) {
 		mu.Lock()
@@ -245,7 +325,7 @@ func runSyncCase(r *rng, stats map[string]int) (string, map[string]any, bool) {
 	wg.Add(1)
 	go func() {
 		defer wg.Done()
-		for i := 0; i < 60; i++ {
+		for i := 0; i < 400; i++ {
 			after := isClosed()
 			_, _, err := client.ReadSlices()
 			var big *mqtt.BigMessage
@@ -303,6 +383,37 @@ func runSyncCase(r *rng, stats map[string]int) (string, map[string]any, bool) {
 			}
 		}()
 	}
+	// Subscribe, Unsubscribe and Ping, most of them without a quit channel: they return with the
+	// response, with ErrBreak when the connection is lost, or with ErrClosed
+	for w := 0; w < nRequesters; w++ {
+		wr := newRng(seeds[12+w])
+		wg.Add(1)
+		go func() {
+			defer wg.Done()
+			for i := 0; i < 2+wr.intn(3); i++ {
+				time.Sleep(time.Duration(wr.intn(80)) * time.Millisecond)
+				after := isClosed()
+				var quit chan struct{}
+				var tm *time.Timer
+				if wr.chance(1, 3) {
+					quit = make(chan struct{})
+					q := quit
+					tm = time.AfterFunc(300*time.Millisecond, func() { close(q) })
+				}
+				switch wr.intn(3) {
+				case 0:
+					note(5, client.Ping(quit), after)
+				case 1:
+					note(6, client.Subscribe(quit, "a/b", "c"), after)
+				default:
+					note(7, client.Unsubscribe(quit, "a/b"), after)
+				}
+				if tm != nil && !tm.Stop() {
+					<-quit
+				}
+			}
+		}()
+	}
 	for k := 0; k < nClosers; k++ {
 		kr := newRng(seeds[8+k])
 		wg.Add(1)
@@ -345,7 +456,7 @@ func runSyncCase(r *rng, stats map[string]int) (string, map[string]any, bool) {
 
 	// render
 	rec.mu.Lock()
-	evs := rec.events
+	evs := normalizeCtx(rec.events)
 	rec.mu.Unlock()
 	items := make([]string, 0, len(evs))
 	for _, e := range evs {
@@ -363,7 +474,7 @@ func runSyncCase(r *rng, stats map[string]int) (string, map[string]any, bool) {
 	}
 	term := "SyncCase [" + strings.Join(items, ";\n    ") + "]\n   [" + strings.Join(cs, "; ") + "]"
 	desc := map[string]any{"kind": "sync-run", "events": len(items), "api_calls": len(calls), "publishers": nPublishers,
-		"persisters": nPersist, "closers": nClosers, "fault_per_mille": o.faultRate}
+		"persisters": nPersist, "closers": nClosers, "requesters": nRequesters, "slow_close": slowClose, "fault_per_mille": o.faultRate}
 	return term, desc, true
 }
 
@@ -386,7 +497,7 @@ func runF7(stats map[string]int) (string, map[string]any) {
 			})
 		}
 	}
-	defer func() { mqtt.VerifEvent = nil }()
+	defer func() { mqtt.VerifEvent = defaultHook }()
 	log := &evlog{}
 	store := newSimStore(log)
 	failWrite := false
@@ -506,7 +617,7 @@ func runF7(stats map[string]int) (string, map[string]any) {
 func runF6(stats map[string]int) (string, map[string]any) {
 	rec := &syncRec{}
 	mqtt.VerifEvent = rec.hook
-	defer func() { mqtt.VerifEvent = nil }()
+	defer func() { mqtt.VerifEvent = defaultHook }()
 	log := &evlog{}
 	store := newSimStore(log)
 	inHandshake := make(chan struct{})
@@ -716,7 +827,7 @@ func runF20(stats map[string]int) (string, map[string]any) {
 		default:
 			close(parkA)
 		}
-		mqtt.VerifEvent = nil
+		mqtt.VerifEvent = defaultHook
 		items := []string{}
 		rec.mu.Lock()
 		for _, e := range rec.events {
@@ -766,6 +877,12 @@ func runSync(name string, withF7 bool, tier string, seed uint64, out string) err
 		term, desc = runF20(stats)
 		desc["index"] = -3
 		cs.add(term, desc, "sync-run", true)
+		term, desc = runStalledWrite(stats)
+		desc["index"] = -4
+		cs.add(term, desc, "sync-run", true)
+		term, desc = runLateRequest(stats)
+		desc["index"] = -5
+		cs.add(term, desc, "sync-run", true)
 	}
 	if withF7 {
 		var term string
@@ -784,9 +901,7 @@ func runSync(name string, withF7 bool, tier string, seed uint64, out string) err
 		var term string
 		var desc map[string]any
 		var ok bool
-		synctest.Test(theT, func(t *testing.T) {
-			term, desc, ok = runSyncCase(hr, stats)
-		})
+		bubble(func() { term, desc, ok = runSyncCase(hr, stats) })
 		if !ok {
 			continue
 		}
@@ -797,4 +912,299 @@ func runSync(name string, withF7 bool, tier string, seed uint64, out string) err
 		cs.dist[k] = v
 	}
 	return cs.write(out, 5)
+}
+
+// schedCalls collects API observations of the gated scenarios below.
+type schedCalls struct {
+	mu    sync.Mutex
+	calls []apiObs
+}
+
+func (s *schedCalls) note(g, kind int, err error, after bool) {
+	s.mu.Lock()
+	s.calls = append(s.calls, apiObs{g, kind, classOf(err), after})
+	s.mu.Unlock()
+}
+
+// start runs f in its own goroutine; wait reports its result, or a hung call after the limit.
+func (s *schedCalls) start(kind int, f func() error) (wait func(limit time.Duration) bool) {
+	done := make(chan error, 1)
+	gch := make(chan int, 1)
+	go func() { gch <- gid(); done <- safelyNow(f) }()
+	g := <-gch
+	return func(limit time.Duration) bool {
+		select {
+		case err := <-done:
+			s.note(g, kind, err, false)
+			return true
+		case <-time.After(limit):
+			s.note(g, kind, errHung, false)
+			return false
+		}
+	}
+}
+
+func renderSched(rec *syncRec, s *schedCalls, label string) (string, map[string]any) {
+	items := []string{}
+	rec.mu.Lock()
+	for _, e := range normalizeCtx(rec.events) {
+		if t, ok := coqSyncEvent(e); ok {
+			items = append(items, fmt.Sprintf("mkObs %d (%s)", e.g, t))
+		}
+	}
+	rec.mu.Unlock()
+	s.mu.Lock()
+	cs := make([]string, len(s.calls))
+	for i, c := range s.calls {
+		cs[i] = fmt.Sprintf("mkApi %d %d %d %s", c.g, c.kind, c.cls, coqBool(c.afterClose))
+	}
+	s.mu.Unlock()
+	term := "SyncCase [" + strings.Join(items, ";\n    ") + "]\n   [" + strings.Join(cs, "; ") + "]"
+	return term, map[string]any{"kind": "sync-run", "scenario": label, "events": len(items)}
+}
+
+func waitCh(ch <-chan struct{}, limit time.Duration) bool {
+	select {
+	case <-ch:
+		return true
+	case <-time.After(limit):
+		return false
+	}
+}
+
+// runStalledWrite (C10): no PauseTimeout; the broker stops reading, so a Publish of another
+// goroutine sits in conn.Write with the write semaphore; then the read routine meets a read
+// error. It has to close the connection (which releases the writer), return, and redial on
+// the next call. Real time, outside a bubble; gates instead of sleeps.
+func runStalledWrite(stats map[string]int) (string, map[string]any) {
+	rec := &syncRec{}
+	mqtt.VerifEvent = rec.hook
+	defer func() { mqtt.VerifEvent = defaultHook }()
+	log := &evlog{}
+	store := newSimStore(log)
+	stalled := make(chan struct{})
+	var onceS sync.Once
+	dialer := &simDialer{log: log}
+	dialer.onDial = func(id int) (*simConn, bool) {
+		c := &simConn{closedCh: make(chan struct{})}
+		sent := false
+		c.onRead = func(c *simConn, armed bool, want int) readAns {
+			if !sent {
+				sent = true
+				return readAns{kind: rData, data: []byte{0x20, 2, 0, 0}}
+			}
+			c.mu.Unlock()
+			defer c.mu.Lock()
+			if id == 0 {
+				select {
+				case <-stalled:
+					return readAns{kind: rHard}
+				case <-c.closedCh:
+					return readAns{kind: rClosed}
+				}
+			}
+			<-c.closedCh
+			return readAns{kind: rClosed}
+		}
+		c.onWrite = func(c *simConn, p []byte) writeAns {
+			if id == 0 && p[0]>>4 == 3 {
+				// the broker does not read any more: this write ends with the connection
+				onceS.Do(func() { close(stalled) })
+				c.mu.Unlock()
+				<-c.closedCh
+				c.mu.Lock()
+				return writeAns{kind: wClosed, n: 0}
+			}
+			return writeAns{kind: wOk, n: len(p)}
+		}
+		return c, true
+	}
+	cfg := mqtt.Config{Dialer: dialer.dial}
+	client, err := mqtt.InitSession("stall", store, &cfg)
+	if err != nil {
+		panic(err)
+	}
+	s := &schedCalls{}
+	const limit = 5 * time.Second
+	read := func() error { _, _, err := client.ReadSlices(); return err }
+	// one goroutine makes all ReadSlices calls
+	rres := make(chan error, 4)
+	next := make(chan struct{}, 4)
+	rg := make(chan int, 1)
+	go func() {
+		rg <- gid()
+		for range next {
+			rres <- safelyNow(read)
+		}
+	}()
+	g := <-rg
+	waitR := func() bool {
+		select {
+		case err := <-rres:
+			s.note(g, 0, err, false)
+			return true
+		case <-time.After(limit):
+			s.note(g, 0, errHung, false)
+			stats["stall:hung"]++
+			return false
+		}
+	}
+	next <- struct{}{}
+	ok := waitCh(client.Online(), limit)
+	if ok {
+		waitW := s.start(1, func() error { return client.Publish(nil, []byte("x"), "t") })
+		ok = waitR() // the read error
+		if !waitW(limit) {
+			stats["stall:hung"]++
+			ok = false
+		}
+		if ok {
+			next <- struct{}{} // redial
+			if !waitCh(client.Online(), limit) {
+				s.note(g, 0, errHung, false) // no redial
+				stats["stall:hung"]++
+				ok = false
+			}
+		}
+	}
+	client.Close()
+	if ok {
+		waitR()
+	}
+	close(next)
+	return renderSched(rec, s, "stalled write of another goroutine when the read routine meets a read error")
+}
+
+// runLateRequest (C11): while the read routine leaves a lost connection (its Close of the
+// connection takes a moment), a Publish that was in conn.Write completes and Subscribe,
+// Unsubscribe and Ping, which waited for the write semaphore, are written successfully to the
+// dying connection. All three have to return (ErrBreak): no response can come any more and the
+// redial fails.
+func runLateRequest(stats map[string]int) (string, map[string]any) {
+	rec := &syncRec{}
+	mqtt.VerifEvent = rec.hook
+	defer func() { mqtt.VerifEvent = defaultHook }()
+	log := &evlog{}
+	store := newSimStore(log)
+	eofGate, w1Gate, closeGate := make(chan struct{}), make(chan struct{}), make(chan struct{})
+	w1InWrite, inClose := make(chan struct{}), make(chan struct{})
+	var onceW, onceC sync.Once
+	var wmu sync.Mutex
+	written := 0
+	dialer := &simDialer{log: log}
+	dialer.onDial = func(id int) (*simConn, bool) {
+		if id != 0 || len(dialer.conns) != 0 {
+			return nil, false
+		}
+		c := &simConn{closedCh: make(chan struct{})}
+		c.closeDelay = func() time.Duration {
+			onceC.Do(func() { close(inClose) })
+			<-closeGate
+			return 0
+		}
+		sent := false
+		c.onRead = func(c *simConn, armed bool, want int) readAns {
+			if !sent {
+				sent = true
+				return readAns{kind: rData, data: []byte{0x20, 2, 0, 0}}
+			}
+			c.mu.Unlock()
+			defer c.mu.Lock()
+			select {
+			case <-eofGate:
+				return readAns{kind: rEOF}
+			case <-c.closedCh:
+				return readAns{kind: rClosed}
+			}
+		}
+		c.onWrite = func(c *simConn, p []byte) writeAns {
+			if p[0]>>4 == 3 {
+				first := false
+				onceW.Do(func() { first = true })
+				if first {
+					close(w1InWrite)
+					c.mu.Unlock()
+					<-w1Gate
+					c.mu.Lock()
+				}
+			} else if p[0]>>4 != 1 {
+				wmu.Lock()
+				written++
+				wmu.Unlock()
+			}
+			return writeAns{kind: wOk, n: len(p)}
+		}
+		return c, true
+	}
+	cfg := mqtt.Config{Dialer: dialer.dial, PauseTimeout: time.Minute}
+	client, err := mqtt.InitSession("late", store, &cfg)
+	if err != nil {
+		panic(err)
+	}
+	s := &schedCalls{}
+	const limit = 5 * time.Second
+	rres := make(chan error, 4)
+	next := make(chan struct{}, 4)
+	rg := make(chan int, 1)
+	go func() {
+		rg <- gid()
+		for range next {
+			rres <- safelyNow(func() error { _, _, err := client.ReadSlices(); return err })
+		}
+	}()
+	g := <-rg
+	waitR := func() bool {
+		select {
+		case err := <-rres:
+			s.note(g, 0, err, false)
+			return true
+		case <-time.After(limit):
+			s.note(g, 0, errHung, false)
+			stats["late:hung"]++
+			return false
+		}
+	}
+	next <- struct{}{}
+	if waitCh(client.Online(), limit) {
+		waitW1 := s.start(1, func() error { return client.Publish(nil, []byte("x"), "t") })
+		if waitCh(w1InWrite, limit) {
+			close(eofGate)                    // the broker hangs up
+			entered := waitCh(inClose, limit) // the read routine is closing the connection
+			// the three requests start now: they register for their responses and queue up
+			// for the write semaphore, which the Publish still holds
+			waitS := s.start(6, func() error { return client.Subscribe(nil, "a/b", "c/d") })
+			waitU := s.start(7, func() error { return client.Unsubscribe(nil, "e/f") })
+			waitP := s.start(5, func() error { return client.Ping(nil) })
+			time.Sleep(50 * time.Millisecond)
+			close(w1Gate) // the Publish completes
+			waitW1(limit)
+			for i := 0; i < 200 && entered; i++ { // the three requests go out on the dying connection
+				wmu.Lock()
+				n := written
+				wmu.Unlock()
+				if n >= 3 {
+					break
+				}
+				time.Sleep(10 * time.Millisecond)
+			}
+			close(closeGate)
+			waitR() // the connection loss
+			for _, w := range []func(time.Duration) bool{waitS, waitU, waitP} {
+				if !w(limit) {
+					stats["late:hung"]++
+				}
+			}
+			next <- struct{}{} // the redial fails
+			waitR()
+		} else {
+			close(eofGate)
+			close(w1Gate)
+			close(closeGate)
+		}
+	} else {
+		close(closeGate)
+	}
+	client.Close()
+	close(next)
+	return renderSched(rec, s, "requests written to the dying connection while the read routine goes offline")
 }
